@@ -65,3 +65,24 @@ void h_softclip_independence(void)
    __CPROVER_assert(BITS(mem[c]) == BITS(m1[c]) || mem[c] == m1[c], "and leaves the same per-channel memory");
    CANARY("after independence");
 }
+
+/* channel isolation (a consequence of "independent channels" + "in-range input untouched" that needs one run only):
+   a channel that is inside [-1,1] with cleared memory comes back bit for bit, whatever the OTHER channels contain
+   (finite, arbitrarily large) and whatever their memory.  Only comparisons of the other channels' samples matter here,
+   so the formula slicer removes their arithmetic (divisions, square roots). */
+#ifndef VERIF_QUIET
+#define VERIF_QUIET (VERIF_C - 1)      /* the channel that must come back untouched */
+#endif
+void h_softclip_isolation(void)
+{
+   const int N = VERIF_N, C = VERIF_C; int i, k; float x[VERIF_NC], mem[VERIF_C], in[VERIF_NC];
+   for (i = 0; i < VERIF_NC; i++) { x[i] = nondet_float(); __CPROVER_assume(!isnan(x[i]) && !isinf(x[i])); in[i] = x[i]; }
+   for (i = 0; i < VERIF_C; i++) { mem[i] = nondet_float(); __CPROVER_assume(mem[i] >= -1.f && mem[i] <= 1.f); }
+   mem[VERIF_QUIET] = 0;
+   for (i = 0; i < VERIF_N; i++) __CPROVER_assume(x[i * VERIF_C + VERIF_QUIET] >= -1.f && x[i * VERIF_C + VERIF_QUIET] <= 1.f);
+   opus_pcm_soft_clip(x, N, C, mem);
+   k = nondet_int(); __CPROVER_assume(0 <= k && k < VERIF_N);
+   __CPROVER_assert(BITS(x[k * VERIF_C + VERIF_QUIET]) == BITS(in[k * VERIF_C + VERIF_QUIET]), "a channel inside [-1,1] with cleared memory is untouched whatever the other channels contain");
+   __CPROVER_assert(mem[VERIF_QUIET] == 0, "and its clipping memory stays cleared");
+   CANARY("after isolation");
+}
